@@ -243,3 +243,114 @@ Proof.
       * pose proof (lframe_updm_lists s1 k (fun m => m <| m_cur := Some r |>)) as LF. rewrite (updm_some _ _ _ _ Hm1) in LF.
         apply LF. intros m0. destruct m0; cbn. auto.
 Qed.
+
+(* ---------------------------------------------------------------- LockManagerWaitQueue.Push *)
+Lemma wq_compact_ginv items : forall s g k A,
+  GInv s g -> g_dk g = k -> g_pw g = true -> g_owe g = [] -> (forall x, In x items -> occ x (g_pre g) = O) ->
+  (forall r0, (occ r0 (A ++ items) + occ r0 (g_ph g) = occ r0 (phl s g))%nat) ->
+  exists ph', let '(s', kept) := wq_compact s items in
+    GInv s' (g <| g_ph := ph' |>) /\ qframe s s'
+    /\ (forall r0, (occ r0 (A ++ kept) + occ r0 ph' = occ r0 (phl s' (g <| g_ph := ph' |>)))%nat)
+    /\ (length ph' + length kept = length (g_ph g) + length items)%nat
+    /\ (forall x, ~ In x items -> aget (store s') x = aget (store s) x).
+Proof.
+  induction items as [|r rest IH]; intros s g k A G Hk Hpw Ho Hq Hrel.
+  - exists (g_ph g). simpl. rewrite gph_id. split; [exact G|]. split; [apply qframe_refl|]. split; [exact Hrel|]. split; [lia|auto].
+  - simpl. destruct (dead_waiter (getl s r)) eqn:El.
+    + assert (Hrel' : forall r0, (occ r0 (r :: A ++ rest) + occ r0 (g_ph g) = occ r0 (phl s g))%nat).
+      { intros r0. specialize (Hrel r0). rewrite occ_app, occ_cons in Hrel. rewrite occ_cons, occ_app. lia. }
+      assert (Hdead : aget (store s) r = None \/ l_timeouted (getl s r) = true).
+      { destruct (aget (store s) r) as [l|] eqn:Hr; auto. right. rewrite (getl_some _ _ _ Hr) in *.
+        rewrite <- (dead_waiter_timeouted s g r l G Hr). auto. }
+      destruct (drop_step s g k r (A ++ rest) G Hk Ho (Hq r (or_introl eq_refl)) Hrel' Hdead) as [G1 R1]; [rewrite Hpw; discriminate|].
+      destruct (IH (unref s r) (g <| g_ph := r :: g_ph g |>) k A G1 Hk Hpw Ho (fun x Hx => Hq x (or_intror Hx)) R1) as [ph' P]. exists ph'.
+      destruct (wq_compact (unref s r) rest) as [s' kept]. rewrite gph_twice in P. destruct P as [P1 [P2 [P3 [P4 P5]]]].
+      split; [exact P1|]. split; [eapply qframe_trans; [apply unref_qframe|exact P2]|]. split; [exact P3|]. split; [gs; simpl in *; lia|].
+      intros x Hx. rewrite P5 by (intros Hi; apply Hx; right; auto). apply unref_other. intros ->. apply Hx. left. auto.
+    + assert (Hrel' : forall r0, (occ r0 ((A ++ [r]) ++ rest) + occ r0 (g_ph g) = occ r0 (phl s g))%nat).
+      { intros r0. rewrite <- app_assoc. apply Hrel. }
+      destruct (IH s g k (A ++ [r]) G Hk Hpw Ho (fun x Hx => Hq x (or_intror Hx)) Hrel') as [ph' P]. exists ph'.
+      destruct (wq_compact s rest) as [s' kept]. destruct P as [P1 [P2 [P3 [P4 P5]]]].
+      split; [exact P1|]. split; [exact P2|]. split; [|split; [simpl; lia|]].
+      * intros r0. specialize (P3 r0). rewrite <- app_assoc in P3. exact P3.
+      * intros x Hx. apply P5. intros Hi. apply Hx. right. auto.
+Qed.
+
+Lemma occ_prio_insert s items r p r0 : occ r0 (prio_insert s items r p) = (occ r0 items + occ r0 [r])%nat.
+Proof.
+  induction items as [|x t IH]; simpl; [lia|]. destruct (prio_of (l_cmd (getl s x)) <? p); simpl; [lia|]. rewrite IH. simpl. lia.
+Qed.
+Lemma occ_repush_fold s l : forall acc r0,
+  occ r0 (fold_left (fun acc r => prio_insert s acc r (prio_of (l_cmd (getl s r)))) l acc) = (occ r0 acc + occ r0 l)%nat.
+Proof.
+  induction l as [|x t IH]; intros acc r0; simpl; [lia|]. rewrite IH, occ_prio_insert. simpl. lia.
+Qed.
+Lemma wq_repush_items s q r0 : occ r0 (wq_items (wq_repush s q)) = occ r0 (wq_items q).
+Proof.
+  unfold wq_repush. destruct (wq_mode q); auto; unfold wq_items at 1; cbn; rewrite occ_repush_fold; simpl; auto.
+Qed.
+Lemma wq_repush_capok s q : wq_capok q -> wq_capok (wq_repush s q).
+Proof.
+  unfold wq_capok, wq_repush. intros [H1 H2]. destruct (wq_mode q) eqn:E; cbn; rewrite ?E; auto; split; auto; discriminate.
+Qed.
+
+Lemma wq_push_ginv s g k q r lr m :
+  GInv s g -> g_dk g = k -> g_pw g = true -> g_owe g = [] -> g_ph g = [] -> g_pre g = [] ->
+  aget (mgrs s) k = Some m -> (forall r0, occ r0 (m_wq m) = occ r0 (wq_items q)) ->
+  aget (store s) r = Some lr -> ~ In r (m_wq m) -> wq_capok q ->
+  exists ph', let '(s', q') := wq_push s q r in
+    GInv s' (g <| g_ph := ph' |>) /\ qframe s s'
+    /\ (forall r0, (occ r0 (wq_items q') + occ r0 ph' = occ r0 (wq_items q) + occ r0 [r])%nat)
+    /\ wq_capok q' /\ aget (store s') r = Some lr.
+Proof.
+  intros G Hk Hpw Ho Hp Hq Hm Hperm Hr Hnin [Hc1 Hc2].
+  assert (Hnq : ~ In r (wq_items q)) by (intros Hi; apply Hnin; apply occ_In; rewrite Hperm; apply occ_In; auto).
+  unfold wq_push. destruct (wq_mode q) eqn:Emode.
+  - (* fast slice *)
+    specialize (Hc2 eq_refl).
+    assert (Hitems : wq_items q = wq_fast q) by (unfold wq_items; rewrite Hc2, app_nil_r; auto).
+    destruct (wq_cap q =? 0) eqn:Ec.
+    + apply N.eqb_eq in Ec. specialize (Hc1 Ec).
+      exists (g_ph g). rewrite gph_id. split; [exact G|]. split; [apply qframe_refl|]. split; [|split; [|exact Hr]].
+      * intros r0. unfold wq_items. cbn. rewrite Hc1, Hc2, Hp. simpl. lia.
+      * split; cbn; [intros; discriminate|rewrite Emode; auto].
+    + apply N.eqb_neq in Ec. destruct (wq_len q <? wq_cap q) eqn:El.
+      * exists (g_ph g). rewrite gph_id. split; [exact G|]. split; [apply qframe_refl|]. split; [|split; [|exact Hr]].
+        -- intros r0. unfold wq_items. cbn. rewrite Hc2, Hp, !occ_app. simpl. lia.
+        -- split; cbn; [intros; contradiction|rewrite Emode; auto].
+      * destruct (wq_fast q) as [|x0 t0] eqn:Ef.
+        -- exists (g_ph g). rewrite gph_id. split; [exact G|]. split; [apply qframe_refl|]. split; [|split; [|exact Hr]].
+           ++ intros r0. unfold wq_items. cbn. rewrite Ef, Hc2, Hp. simpl. lia.
+           ++ split; cbn; [intros; contradiction|rewrite Emode; auto].
+        -- rewrite <- Ef.
+           assert (Hrel : forall r0, (occ r0 ([] ++ wq_fast q) + occ r0 (g_ph g) = occ r0 (phl s g))%nat).
+           { intros r0. unfold phl. rewrite Hpw, Hk, (getm_some _ _ _ Hm), Hperm, Hitems, Hp. simpl. lia. }
+           assert (Hpre0 : forall x, In x (wq_fast q) -> occ x (g_pre g) = O) by (intros; rewrite Hq; reflexivity).
+           destruct (wq_compact_ginv (wq_fast q) s g k [] G Hk Hpw Ho Hpre0 Hrel) as [ph' P].
+           destruct (wq_compact s (wq_fast q)) as [s' kept]. destruct P as [P1 [P2 [P3 [P4 P5]]]].
+           assert (Hr' : aget (store s') r = Some lr) by (rewrite P5; auto; rewrite <- Hitems; auto).
+           assert (Hrelk : forall r0, (occ r0 kept + occ r0 ph' = occ r0 (wq_fast q))%nat).
+           { intros r0. specialize (P3 r0). unfold phl in P3. gs. rewrite Hpw, Hk in P3.
+             destruct (qframe_lists s s' k P2) as [_ [Q2 _]]. rewrite Q2, (getm_some _ _ _ Hm), Hperm, Hitems in P3.
+             simpl in P3. lia. }
+           exists ph'.
+           destruct (N.of_nat (length kept) <? wq_len q) eqn:Ek.
+           ++ split; [exact P1|]. split; [exact P2|]. split; [|split; [|exact Hr']].
+              ** intros r0. unfold wq_items. cbn. rewrite Hc2, Hitems, !occ_app. specialize (Hrelk r0). simpl. lia.
+              ** split; cbn; [intros; contradiction|rewrite Emode; auto].
+           ++ destruct (wq_cap q <=? 128).
+              ** split; [exact P1|]. split; [exact P2|]. split; [|split; [|exact Hr']].
+                 --- intros r0. unfold wq_items. cbn. rewrite Hc2, Hitems, !occ_app. specialize (Hrelk r0). simpl. lia.
+                 --- split; cbn; [intros Hg; exfalso; apply (grow_cap_ne0 _ Ec Hg)|rewrite Emode; auto].
+              ** apply N.ltb_ge in Ek. unfold wq_len in Ek. rewrite Hp in P4. simpl in P4.
+                 assert (Hph0 : ph' = []) by (apply length_zero_nil; lia). subst ph'.
+                 split; [exact P1|]. split; [exact P2|]. split; [|split; [|exact Hr']].
+                 --- intros r0. unfold wq_items. cbn. rewrite Hc2, !occ_app. simpl. lia.
+                 --- split; cbn; [exact Hc1|discriminate].
+  - exists (g_ph g). rewrite gph_id. split; [exact G|]. split; [apply qframe_refl|]. split; [|split; [|exact Hr]].
+    + intros r0. unfold wq_items. cbn. rewrite Hp, !occ_app. simpl. lia.
+    + split; cbn; [exact Hc1|rewrite Emode; discriminate].
+  - exists (g_ph g). rewrite gph_id. split; [exact G|]. split; [apply qframe_refl|]. split; [|split; [|exact Hr]].
+    + intros r0. unfold wq_items. cbn. rewrite Hp, !occ_app, occ_prio_insert. simpl. lia.
+    + split; cbn; [exact Hc1|rewrite Emode; discriminate].
+Qed.
